@@ -16,6 +16,11 @@ import (
 // (no elements, or resource and struct elements) makes ImportValue fail with an *internal* error
 const keyArrayInternal = "untyped-array-without-common-element-type-internal-error"
 
+// key of the known finding: an array with a fixed-size simple static element type ([Int8], [Word16], [Bool],
+// [Address], [UFix64], ...) that wrongly contains a container element, nested in another container or in a
+// composite field, fails to be imported with atree's "can't copy container" CopyError
+const keyCopyError = "ill-typed-simple-array-with-container-element-atree-copy-error"
+
 type kase struct {
 	T      *Ty
 	X      *X
@@ -45,6 +50,12 @@ func corpusCases() []*kase {
 		mk(anyS, &X{K: "array"}, "empty-array-for-AnyStruct"),
 		mk(varr(anyS), &X{K: "array", Elems: []*X{{K: "array"}}}, "nested-empty-array-for-[AnyStruct]"),
 		mk(anyS, &X{K: "array", Elems: []*X{{K: "comp", Kind: "Resource", C: 4, Fields: []int{0}, Elems: []*X{num("Int", 1)}}, num("Int", 1)}}, "resource-and-struct-elements"),
+		// the second finding: a struct inside an inner [Word16] / inside the [Int8] field of S2
+		mk(varr(varr(prim("Word16"))), &X{K: "array", Elems: []*X{{K: "array", Elems: []*X{s0(1)}}}}, "struct-in-nested-word16-array"),
+		mk(comp(2), &X{K: "comp", Kind: "Struct", C: 2, Fields: []int{2, 3, 4}, Elems: []*X{
+			{K: "array", Elems: []*X{{K: "array", Elems: []*X{num("Int8", 1)}}}}, num("Int", 1), s0(1)}}, "array-in-int8-array-field"),
+		mk(varr(varr(prim("Int"))), &X{K: "array", Elems: []*X{{K: "array", Elems: []*X{s0(1)}}}}, "struct-in-nested-int-array"),
+		mk(anyS, &X{K: "some", In: &X{K: "array", Elems: []*X{{K: "address", Addr: 3}, {K: "none"}, {K: "string", S: ""}}}}, "optional-mix-untyped"),
 		// accepted shapes
 		mk(anyS, &X{K: "array", Elems: []*X{num("Int", 1), {K: "string", S: "a"}}}, "hashable-mix"),
 		mk(anyS, &X{K: "array", Elems: []*X{num("Int8", 1), num("Int16", 2)}}, "signed-integer-mix"),
@@ -212,6 +223,8 @@ func run(sum *lib.Summary) {
 			switch {
 			case r.Class == "RInternal" && strings.Contains(r.Err, "cannot import array: elements do not belong to the same type"):
 				sum.Fail(keyArrayInternal, "argument rejected with an internal error instead of a user error: "+r.Err[:200], replay)
+			case r.Class == "RCopy":
+				sum.Fail(keyCopyError, "argument rejected with a storage-layer copy error instead of an invalid-argument error: "+r.Err[:160], replay)
 			case r.Class == "RInternal" || r.Class == "Crash" || strings.HasPrefix(r.Class, "Other:"):
 				sum.Fail("argument-internal-error", fmt.Sprintf("argument handling failed with %s: %s", r.Class, r.Err), replay)
 			}
